@@ -377,6 +377,11 @@ class Inliner:
                 res = self.inline_generator_loop(st, h, module, cls, depth, stack)
                 if res is not None:
                     return res
+        # a loop over a constant table of rows (dispatch table): one copy of the body per row
+        if isinstance(st, ast.For) and not st.orelse:
+            res = self.unroll_table_loop(st, module, cls)
+            if res is not None:
+                return self.expand_block(res, module, cls, depth, stack)
         # list comprehension whose element needs a statement-bodied helper: write it as the loop it abbreviates
         if isinstance(st, ast.Assign) and len(st.targets) == 1 and isinstance(st.targets[0], ast.Name) and isinstance(st.value, ast.ListComp):
             res = self.desugar_listcomp(st, module, cls, stack)
@@ -400,6 +405,75 @@ class Inliner:
                     return res
         # helper calls nested in the statement's own expressions (not in nested blocks)
         return self.expand_nested_calls(st, module, cls, depth, stack)
+
+    def _constant_table(self, expr, module, cls):
+        """Rows of a class-level / module-level `NAME = ((a, b), (c, d), ...)` that is assigned exactly once; else None."""
+        name, scope = None, None
+        if isinstance(expr, ast.Attribute) and isinstance(expr.value, ast.Name) and expr.value.id in ("self", "cls") and cls is not None:
+            name, scope = expr.attr, cls
+        elif isinstance(expr, ast.Attribute) and isinstance(expr.value, ast.Name) and cls is not None and expr.value.id == cls.name:
+            name, scope = expr.attr, cls
+        elif isinstance(expr, ast.Name):
+            name, scope = expr.id, module.tree
+        if name is None:
+            return None
+        defs = [st for st in scope.body if isinstance(st, ast.Assign) and any(isinstance(t, ast.Name) and t.id == name for t in st.targets)]
+        if len(defs) != 1 or not isinstance(defs[0].value, (ast.Tuple, ast.List)):
+            return None
+        # never re-bound or mutated elsewhere in the module
+        for n in ast.walk(module.tree):
+            if isinstance(n, ast.Attribute) and n.attr == name and isinstance(n.ctx, (ast.Store, ast.Del)):
+                return None
+            if isinstance(n, ast.Name) and n.id == name and isinstance(n.ctx, (ast.Store, ast.Del)) and getattr(n, "_parent", None) is not defs[0]:
+                return None
+        rows = defs[0].value.elts
+        if not rows or len(rows) > 32 or not all(isinstance(r, (ast.Tuple, ast.List)) for r in rows):
+            return None
+        return rows, scope
+
+    def unroll_table_loop(self, loop, module, cls):
+        if not isinstance(loop.target, (ast.Tuple, ast.List)) or not all(isinstance(t, ast.Name) for t in loop.target.elts):
+            return None
+        tab = self._constant_table(loop.iter, module, cls)
+        if tab is None:
+            return None
+        rows, scope = tab
+        k = len(loop.target.elts)
+        if not all(len(r.elts) == k for r in rows):
+            return None
+        names = [t.id for t in loop.target.elts]
+        for n in ast.walk(ast.Module(body=loop.body, type_ignores=[])):
+            if isinstance(n, (ast.Break, ast.Continue)):
+                return None
+            if isinstance(n, ast.Name) and n.id in names and isinstance(n.ctx, (ast.Store, ast.Del)):
+                return None
+        class_funcs = {f.name for f in scope.body if isinstance(f, ast.FunctionDef)} if isinstance(scope, ast.ClassDef) else set()
+        out = []
+        for r in rows:
+            mapping = dict(zip(names, r.elts))
+
+            class T(ast.NodeTransformer):
+                def visit_Call(self, node):
+                    # handler(self, args)  with handler a function of the class body  ->  self.handler(args)
+                    if isinstance(node.func, ast.Name) and node.func.id in mapping and isinstance(mapping[node.func.id], ast.Name) \
+                            and mapping[node.func.id].id in class_funcs and node.args and isinstance(node.args[0], ast.Name) and node.args[0].id in ("self", "cls"):
+                        new = ast.Call(func=ast.Attribute(value=node.args[0], attr=mapping[node.func.id].id, ctx=ast.Load()),
+                                       args=[self.visit(a) for a in node.args[1:]], keywords=[self.visit(kw) for kw in node.keywords])
+                        return ast.copy_location(new, node)
+                    return self.generic_visit(node)
+
+                def visit_Name(self, node):
+                    if node.id in mapping and isinstance(node.ctx, ast.Load):
+                        return ast.copy_location(clone(mapping[node.id]), node)
+                    return node
+
+            for b in loop.body:
+                nb = T().visit(clone(b))
+                ast.fix_missing_locations(nb)
+                _set_module(nb, getattr(loop, "_module", None))
+                out.append(nb)
+        self.inlined_calls.append(f"<table-loop> for {ast.unparse(loop.target)} in {ast.unparse(loop.iter)} unrolled over {len(rows)} rows")
+        return out
 
     def desugar_listcomp(self, st, module, cls, stack):
         comp = st.value
@@ -575,6 +649,31 @@ class Inliner:
                 for n in _walk_same_scope(root):
                     if not isinstance(n, ast.Call) or n is getattr(st, "value", None) and isinstance(st, (ast.Expr,)):
                         continue
+                    # list(gen_helper(...)) / tuple(gen_helper(...)): collect the generator's values with an explicit loop first
+                    if isinstance(n.func, ast.Name) and n.func.id in ("list", "tuple") and len(n.args) == 1 and not n.keywords and isinstance(n.args[0], ast.Call) \
+                            and not isinstance(st, ast.While):
+                        gh = self.helper_for(n.args[0], module, cls)
+                        if gh is not None and qualname_of(gh[0]) not in stack and _contains(gh[0].body, (ast.Yield, ast.YieldFrom)):
+                            self.counter += 1
+                            tmpn = f"collected__g{self.counter}"
+                            itemn = f"item__g{self.counter}"
+
+                            def mk(node, like=n):
+                                ast.copy_location(node, like)
+                                ast.fix_missing_locations(node)
+                                _set_module(node, getattr(st, "_module", None))
+                                return node
+
+                            init = mk(ast.Assign(targets=[ast.Name(id=tmpn, ctx=ast.Store())], value=ast.List(elts=[], ctx=ast.Load())))
+                            app = mk(ast.Expr(value=ast.Call(func=ast.Attribute(value=ast.Name(id=tmpn, ctx=ast.Load()), attr="append", ctx=ast.Load()),
+                                                             args=[ast.Name(id=itemn, ctx=ast.Load())], keywords=[])))
+                            loop = mk(ast.For(target=ast.Name(id=itemn, ctx=ast.Store()), iter=n.args[0], body=[app], orelse=[]))
+                            rep = mk(ast.Name(id=tmpn, ctx=ast.Load())) if n.func.id == "list" else mk(ast.Call(func=ast.Name(id="tuple", ctx=ast.Load()), args=[ast.Name(id=tmpn, ctx=ast.Load())], keywords=[]))
+                            if _replace_node(st, n, rep):
+                                pre.extend([init] + self.expand_block([loop], module, cls, depth, stack))
+                                self.inlined_calls.append(f"<collect> {n.func.id}({ast.unparse(n.args[0])[:40]}) written as a loop")
+                                changed = True
+                                break
                     h = self.helper_for(n, module, cls)
                     if h is None or qualname_of(h[0]) in stack:
                         continue
